@@ -50,6 +50,8 @@ def parsePOp (t : String) : Option POp :=
   else if rest == "s" then some (.shutdown side)
   else if rest.startsWith "r" then some (.read side (natTok (rest.drop 1).toString))
   else if rest.startsWith "w" then some (.write side (parseHex (rest.drop 1).toString))
+  -- a vectored write: the slices one after the other
+  else if rest.startsWith "v" then some (.write side (((rest.drop 1).toString.splitOn ",").flatMap parseHex))
   else none
 
 
